@@ -116,7 +116,9 @@ func runC20(c *Ctx) {
 	defer B.srv.Close()
 	dir, err := os.MkdirTemp(c.Out, "ca")
 	must(err)
-	syms := map[string]string{A.PEM: "PEM-A", B.PEM: "PEM-B", "garbage": "garbage", "": ""}
+	// bundles: both certificates in one PEM text, in either order (the roll-over step "old CA + new CA")
+	AB, BA := A.PEM+B.PEM, B.PEM+A.PEM
+	syms := map[string]string{A.PEM: "PEM-A", B.PEM: "PEM-B", AB: "PEM-A+PEM-B", BA: "PEM-B+PEM-A", "garbage": "garbage", "": ""}
 	sym := func(s string) string {
 		if v, ok := syms[s]; ok {
 			return v
@@ -267,6 +269,11 @@ func runC20(c *Ctx) {
 		[]tlsSettings{{File: f("g"), Interval: iv}, {File: f("u"), Interval: iv}},
 		[]tlsOp{{Kind: "load", S: 0}, {Kind: "load", S: 1}, {Kind: "write", File: f("g"), Content: B.PEM}, {Kind: "wait"},
 			{Kind: "load", S: 0}, {Kind: "write", File: f("g"), Content: A.PEM}, {Kind: "wait"}})
+	// roll-over through a bundle: A -> A+B -> B+A -> B
+	runScenario("rotation-through-bundles", map[string]string{f("b"): A.PEM},
+		[]tlsSettings{{File: f("b"), Interval: iv}, {CA: BA}},
+		[]tlsOp{{Kind: "load", S: 0}, {Kind: "load", S: 1}, {Kind: "write", File: f("b"), Content: AB}, {Kind: "wait"}, {Kind: "write", File: f("b"), Content: BA}, {Kind: "wait"},
+			{Kind: "write", File: f("b"), Content: B.PEM}, {Kind: "wait"}})
 	runScenario("skip-verify-forms", nil,
 		[]tlsSettings{{Skip: skips[2]}, {Skip: skips[3]}, {Skip: skips[4]}, {Skip: skips[5]}, {Skip: skips[6]}, {Skip: skips[7]}, {Skip: skips[8]}, {Skip: skips[9]}, {Skip: skips[10]}, {Skip: skips[11]},
 			{CA: A.PEM, Skip: skips[2]}, {}},
@@ -274,7 +281,7 @@ func runC20(c *Ctx) {
 			{Kind: "load", S: 7}, {Kind: "load", S: 8}, {Kind: "load", S: 9}, {Kind: "load", S: 10}, {Kind: "load", S: 11}})
 	// random scenarios
 	for i := 0; i < n; i++ {
-		files := map[string]string{f(fmt.Sprintf("x%d", i)): pick(r, []string{A.PEM, B.PEM, A.PEM, "garbage", ""}), f(fmt.Sprintf("y%d", i)): pick(r, []string{A.PEM, B.PEM})}
+		files := map[string]string{f(fmt.Sprintf("x%d", i)): pick(r, []string{A.PEM, B.PEM, A.PEM, "garbage", "", AB}), f(fmt.Sprintf("y%d", i)): pick(r, []string{A.PEM, B.PEM, BA})}
 		var paths []string
 		for p := range files {
 			paths = append(paths, p)
@@ -285,7 +292,7 @@ func runC20(c *Ctx) {
 			s := tlsSettings{Skip: skips[r.Intn(len(skips))]}
 			switch r.Intn(6) {
 			case 0:
-				s.CA = pick(r, []string{A.PEM, B.PEM, "garbage"})
+				s.CA = pick(r, []string{A.PEM, B.PEM, "garbage", AB})
 			case 1, 2, 3:
 				s.File = pick(r, append(paths, f("missing")))
 				s.Interval = pick(r, []time.Duration{0, iv, iv, 2 * iv})
@@ -298,7 +305,7 @@ func runC20(c *Ctx) {
 			case x < 5:
 				plan = append(plan, tlsOp{Kind: "load", S: r.Intn(len(settings))})
 			case x < 8:
-				plan = append(plan, tlsOp{Kind: "write", File: pick(r, paths), Content: pick(r, []string{A.PEM, B.PEM})}, tlsOp{Kind: "wait"})
+				plan = append(plan, tlsOp{Kind: "write", File: pick(r, paths), Content: pick(r, []string{A.PEM, B.PEM, AB, BA})}, tlsOp{Kind: "wait"})
 			default:
 				plan = append(plan, tlsOp{Kind: "wait"})
 			}
